@@ -56,8 +56,6 @@ fn stored_property_block(&mut self, w: &mut WriteSink, rs: &RustStruct, f: &Rust
 ''')
 
 BLOCK = [
-    rep(A.text('None => self'), 'None => match self', tag='T14b'),
-    rep(A.span('.map_err(|e|', '?'), O.MAP_ERR_TAIL, tag='T14b', note='map_err(..)? is a match returning the converted error'),
 ]
 
 UNIT = Unit(
@@ -66,7 +64,7 @@ UNIT = Unit(
         Item('stored_property_block', SRC, ['impl Language for Swift {', 'fn write_struct'], BLOCK, wrap=WRAP,
              block=(A.text('coding_keys.push(remove_dash_from_identifier( swift_keyword_aware_rename(&f.id.renamed).as_ref(), )); }'),
                     A.loop_end(0)),
-             auto=('fmt', 'strlit', 'then_some')),
+             auto=('fmt', 'strlit', 'then_some', 'map_err_q')),
     ],
     functions=['Swift::stored_property_block', 'RustType::is_optional', 'RustType::is_double_optional'],
     trusted=O.TRUSTED + ['T11: the statements writing one stored property are lifted out of write_struct\'s loop into a function of (self, w, rs, f); the rest of '
